@@ -140,7 +140,7 @@ PROPS = {
         runs={"quick": [["faults-C08", "--scenarios", "3"]], "thorough": [["faults-C08", "--scenarios", "15"]]},
         trusted=STORE_TRUST + ["fault model: bursts are contiguous in CRC bit order (least significant bit of each byte first); 2^-32 collisions of unrelated data are outside any checksum's reach"],
         statement="CRC-32 linearity, burst and field detection; scan under body faults; two proved negatives",
-        partial="proved: checksum = bit-serial CRC-32; linearity; every <=32-bit burst inside the covered bytes and every change confined to the checksum field is detected; ReadRecord re-verifies; bad magic is an error. Proved negative: the 4-byte straddle burst 61d8|f4ee is undetected for every span (known finding). Header faults (magic/length/FREE headers) are covered by fault enumeration + model correspondence only; the forged-span construction shows they cannot be a theorem without a header checksum (known finding)",
+        partial="proved: checksum = bit-serial CRC-32; linearity; every <=32-bit burst inside the covered bytes and every change confined to the checksum field is detected; ReadRecord re-verifies; bad magic is an error; payload_damage_loses_only_that_record (a span with intact magic/length and failing checksum is stepped over: that record is 'not found', every other record reads back exactly what was written, nothing is fabricated, in every open mode) and payload_burst_is_damage (every <=32-bit burst behind the 8-byte header produces such an image). Proved negative: the 4-byte straddle burst 61d8|f4ee is undetected for every span (known finding). Header faults (magic/length/FREE headers) are covered by fault enumeration + model correspondence only; the forged-span construction shows they cannot be a theorem without a header checksum (known finding)",
     ),
     "C20": dict(
         modules=["Syzgy.Props.C20"], ties=["Numeric"], tie_namespaces=["Dump"],
